@@ -15,13 +15,14 @@ CHECKS = {
         "real-analytic model (blocks bare and inside a solver, integer-typed arguments included). The interface half (place and wire by "
         "pin name, solve, str, print_S, show_free_pins, inspect for int and float arguments, every documented block) is an exhaustive "
         "enumeration of a finite table — finite checking, labelled so."
-        " Blocks added after seeded changes were missed: BeamSplitter with explicit transmission t (boundary values) and UserWaveguide with two modes of different key sets. Coefficients are looked up BY PIN NAME in the documented pin order (not only as a raw matrix); UserWaveguide is sampled with modes declared in unsorted order; BeamSplitter with a transmission argument is covered. A phase shifter whose shift is given only through the constructor default (renamed parameter, nothing passed at solve time) is sampled too. For half of the samples a second instance of the block (other arguments) is built and solved before the sample is read.",
+        " Blocks added after seeded changes were missed: BeamSplitter with explicit transmission t (boundary values) and UserWaveguide with two modes of different key sets. Coefficients are looked up BY PIN NAME in the documented pin order (not only as a raw matrix); UserWaveguide is sampled with modes declared in unsorted order; BeamSplitter with a transmission argument is covered. A phase shifter whose shift is given only through the constructor default (renamed parameter, nothing passed at solve time) is sampled too. For half of the samples a second instance of the block (other arguments) is built and solved before the sample is read."
+        " On every run harness/translate_blocks.py executes the CURRENT source of Waveguide, PhaseShifter, PushPullPhaseShifter, TH_PhaseShifter, Attenuator, LinearAttenuator, Mirror, PerfectMirror, BeamSplitter (both forms), Splitter1x2 and PolRot (both forms) symbolically over the reals and coq/templates/BlocksSrcProof.v proves every entry equal to the Blocks.v definition for all parameter values (13 theorems; axioms: Coq reals + classic, checked).",
    note="Trusted: Coq kernel; Coq.Reals axioms (ClassicalDedekindReals.sig_forall_dec, sig_not_dec, functional_extensionality_dep, "
         "Classical_Prop.classic) and what Interval/Flocq/Coquelicot add (listed per theorem and per generated lemma in the evidence); "
         "hand-written model Blocks.v; harness sampling. User index functions enter as their value. Follows the fixed code (F22-F24). The "
         "phase argument of BeamSplitter is documented 'in units of pi' but implemented as exp(2 pi i phase); only the power ratios are "
         "part of the property and the model follows the code.",
-   technique="Coq proof over the reals (all parameter values) + interval-arithmetic lemma per sampled matrix; finite interface table", design="§5 C09"),
+   technique="Coq proof over the reals (all parameter values) + source-to-Gallina translation of 11 closed-form blocks proved equal to Blocks.v for all parameter values on every run + interval-arithmetic lemma per sampled matrix; finite interface table", design="§5 C09, §3.3"),
  "C15": dict(
    text="Proof: props/C15.v (closed), for every solved model (any size, sweep length, non-symmetric matrix, any pin index map) and every "
         "complex excitation: the reported outputs are S.u with unmentioned pins as zero; superposition (additivity and scaling); a unit "
@@ -31,7 +32,7 @@ CHECKS = {
         "and get_T in amplitude and power mode with the model. dB = 10 log10 T and phase = arg A are real-analytic: tied by interval "
         "arithmetic in the same run."
         " The full sweep table get_full_data (what export writes) is read too, with sweeps that start at a symmetric point; dark pin pairs (T = 0, dB = -inf) are included; dB and phase are tied by one generated interval lemma per sample. The solved model carries a swept and a length-1 parameter; the parameter columns of every table are checked (broadcast), also after the caller has overwritten the arrays it passed in. After the first read-outs two names of the result are swapped by pin_mapping: every accessor (by name and by Pin object) must follow the new labels. Half of the read-out models carry modes on their pins (excitations keyed by name and by moded Pin object)."
-        " On every run harness/translate_readout.py translates the CURRENT source of get_A / get_T / get_PH / get_output / get_full_output / get_data / get_full_data and of the block building the parameter columns to Gallina (symbolic execution, fail-closed) and coq/templates/ReadoutSrcProof.v proves the result equal to Readout.v's definitions for every model, excitation and sweep (9 theorems, closed).",
+        " On every run harness/translate_readout.py translates the CURRENT source of get_A / get_T / get_PH / get_output / get_full_output / get_data / get_full_data / S2PD and of the block building the parameter columns to Gallina (symbolic execution, fail-closed) and coq/templates/ReadoutSrcProof.v proves the result equal to Readout.v's definitions for every model, excitation and sweep (10 theorems, closed). The stream also reads the named matrix S2PD() of models whose pins enter the pin dictionary in scrambled order.",
    note="Trusted: Coq kernel + vm_compute; Bignums primitives for the executed instance; model Readout.v tied by sampled correspondence; "
         "pandas exercised, not verified; for dB/phase the Coq.Reals axioms and Interval. Follows the fixed code (F19).",
    technique="Coq proof (linearity/definitional laws) + source-to-Gallina translation of the read-out helpers proved equal to the model on every run + vm_compute correspondence; interval lemmas for dB and phase", design="§5 C15, §3.3"),
